@@ -128,6 +128,67 @@ func (r *runner) quiescent() bool {
 	return true
 }
 
+func (r *runner) settle() error {
+	ctl := r.ctl
+	deadline := time.Now().Add(8 * stepTimeout)
+	for time.Now().Before(deadline) {
+		var table, role string
+		var pk *zv.Park
+		done := false
+		ctl.Locked(func() {
+			for _, ro := range []string{"rs", "tbl"} {
+				for _, t := range r.tables {
+					if p := ctl.ParkedLocked(t.Name, ro); p != nil && pk == nil {
+						table, role, pk = t.Name, ro, p
+					}
+				}
+			}
+			done = pk == nil && r.quiescent()
+		})
+		if done {
+			for t, ch := range r.flushCh {
+				select {
+				case <-ch:
+				case <-time.After(stepTimeout):
+					return r.fail("forced flush of %s did not return", t)
+				}
+				delete(r.flushCh, t)
+			}
+			return nil
+		}
+		if pk == nil {
+			// nothing parked yet: a reader is polling the WAL, or a goroutine is
+			// between two gates
+			time.Sleep(2 * time.Millisecond)
+			continue
+		}
+		var applies, offers, fdone, reads, verdicts int
+		ctl.Locked(func() {
+			applies, offers, fdone = ctl.Applies[table], ctl.Offers[table], ctl.FlushDone[table]+ctl.OffWritten[table]
+			reads, verdicts = ctl.Reads[table], ctl.Verdicts[table]
+		})
+		ctl.Release(table, role)
+		err := ctl.WaitCond(stepTimeout, "settle step "+table+"/"+role+"/"+pk.Ev, func() bool {
+			if ctl.ParkedLocked(table, role) != nil {
+				return true
+			}
+			switch pk.Ev {
+			case "tbl.read":
+				return ctl.Reads[table] > reads && ctl.Verdicts[table] > verdicts
+			case "rs.offer":
+				_ = offers
+				return ctl.Applies[table] > applies && ctl.Verdicts[table] > verdicts
+			default: // flush steps
+				return ctl.FlushDone[table]+ctl.OffWritten[table] > fdone
+			}
+		})
+		if err != nil {
+			return err
+		}
+	}
+	return r.fail("settle did not reach quiescence")
+}
+
 func (r *runner) exec(c *Cmd) error {
 	ctl := r.ctl
 	tick := r.sc.Opts.Tick()
@@ -172,6 +233,10 @@ func (r *runner) exec(c *Cmd) error {
 		ctl.Release(c.T, "tbl")
 		return ctl.WaitCond(stepTimeout, "apply in "+c.T, func() bool { return ctl.Applies[c.T] > applies })
 	case "FlushBegin":
+		if parkedNow(ctl, c.T, "rs", "flush.begin") {
+			// the flush an Alter forces has already begun
+			return nil
+		}
 		ch := make(chan struct{})
 		r.flushCh[c.T] = ch
 		db := r.node.DB
@@ -311,6 +376,8 @@ func (r *runner) exec(c *Cmd) error {
 	case "Alter":
 		r.tables = c.Tables
 		r.setAbs()
+		var fieldsSet, fieldsDone int
+		ctl.Locked(func() { fieldsSet, fieldsDone = ctl.FieldsSet[c.T], ctl.FieldsDone[c.T] })
 		for _, l := range c.Lines {
 			ctl.Emit(l)
 		}
@@ -319,25 +386,36 @@ func (r *runner) exec(c *Cmd) error {
 		go func() { done <- db.ApplySchema(schemaFor(r.tables, tick)) }()
 		select {
 		case err := <-done:
-			return err
+			if err != nil {
+				return err
+			}
 		case <-time.After(stepTimeout):
 			return r.fail("ApplySchema did not return")
 		}
-	case "Settle":
-		// run freely until every table has consumed the whole WAL and every
-		// row-store insert handed over has been applied
-		ctl.SetGated(false)
-		err := ctl.WaitCond(4*stepTimeout, "quiescence", r.quiescent)
-		for t, ch := range r.flushCh {
-			select {
-			case <-ch:
-			case <-time.After(stepTimeout):
-				return r.fail("forced flush of %s did not return", t)
+		if c.Mem {
+			// the row store has received the new field list; wait until it has
+			// installed it (and, with a non-empty memstore, begun the forced flush)
+			cond := func() bool {
+				return ctl.FieldsSet[c.T] > fieldsSet && (ctl.FieldsDone[c.T] > fieldsDone ||
+					parkedAt(ctl, c.T, "rs", "flush.begin") || parkedAt(ctl, c.T, "rs", "off.temp"))
 			}
-			delete(r.flushCh, t)
+			if err := ctl.WaitCond(stepTimeout, "row store of "+c.T+" to take the new fields", cond); err != nil {
+				return err
+			}
+			if parkedNow(ctl, c.T, "rs", "off.temp") {
+				// empty memstore whose offset moved: the forced flush writes the offset file
+				ctl.Release(c.T, "rs")
+				return ctl.WaitCond(stepTimeout, "row store of "+c.T+" to finish the field update", func() bool {
+					return ctl.FieldsDone[c.T] > fieldsDone
+				})
+			}
+			return nil
 		}
-		ctl.SetGated(true)
-		return err
+	case "Settle":
+		// step everything that is parked, one goroutine at a time (flush steps
+		// first, they block the row store), until every table has consumed the
+		// whole WAL and every row-store insert handed over has been applied
+		return r.settle()
 	case "Gate":
 		ctl.SetGated(c.Mem)
 	case "Sleep":
@@ -361,6 +439,11 @@ func schemaFor(tables []zv.TableDef, tick time.Duration) zenodb.Schema {
 		}
 	}
 	return s
+}
+
+func parkedNow(ctl *zv.Ctl, table, role, ev string) bool {
+	p := ctl.Parked(table, role)
+	return p != nil && p.Ev == ev
 }
 
 func parkedAt(ctl *zv.Ctl, table, role, ev string) bool {
